@@ -360,7 +360,7 @@ func (c *compiler) evalUpdateIndex(left, index, value interface{}) error {
 		}
 
 		kv, err := assignableValue(index, mt.Key())
-		if err != nil || (index != nil && !reflect.TypeOf(index).Comparable()) {
+		if err != nil || (index != nil && !reflect.ValueOf(index).Comparable()) {
 			return fmt.Errorf("cannot use %v as %s value in map index", index, mt.Key())
 		}
 
@@ -430,7 +430,7 @@ func (c *compiler) evalAccessIndex(left, index interface{}, node *ast.IndexExpre
 			return nil, err
 		}
 
-		if !reflect.TypeOf(index).AssignableTo(reflect.TypeOf(left).Key()) || !reflect.TypeOf(index).Comparable() {
+		if !reflect.TypeOf(index).AssignableTo(reflect.TypeOf(left).Key()) || !reflect.ValueOf(index).Comparable() {
 			return nil, fmt.Errorf("cannot use %v (%T) as %s value in map index", index, index, reflect.TypeOf(left).Key())
 		}
 
